@@ -2,6 +2,7 @@ package main
 
 import (
 	"bytes"
+	"compress/gzip"
 	"encoding/binary"
 	"math/rand"
 
@@ -158,6 +159,27 @@ func init() {
 			res := tr.M{"decode_ok": err == nil, "within": len(back.Data) <= 10*1024*1024}
 			if err == nil {
 				res["equal"] = bytes.Equal(back.Data, data)
+			}
+			return res
+		case "gzipmulti":
+			// several gzip members back to back inside one gzip_packed object
+			var want []byte
+			stream := &bytes.Buffer{}
+			for _, m := range tr.List(in["members"]) {
+				data := compressible(rng, tr.Int(m))
+				want = append(want, data...)
+				zw := gzip.NewWriter(stream)
+				_, _ = zw.Write(data)
+				_ = zw.Close()
+			}
+			b := &bin.Buffer{}
+			b.PutID(proto.GZIPTypeID)
+			b.PutBytes(stream.Bytes())
+			var back proto.GZIP
+			err := back.Decode(b)
+			res := tr.M{"decode_ok": err == nil, "within": len(back.Data) <= 10*1024*1024}
+			if err == nil {
+				res["equal"] = bytes.Equal(back.Data, want)
 			}
 			return res
 		case "badgzip":
